@@ -7,9 +7,49 @@
     classes with adversarial, logging special methods must equal that model
     and log nothing.  What is stated here is the boundary of the two functions
     that did consult special methods before their repair. *)
-Require Import AT.Model.Base AT.Model.Special AT.Model.Nav AT.Model.Resolver.
-Require AT.Proofs.SpecialProofs.
+Require Import AT.Model.Base AT.Model.Rose AT.Model.Special AT.Model.Nav AT.Model.Resolver AT.Model.Iter.
+Require AT.Proofs.SpecialProofs AT.Proofs.Naturality.
 Import AT.Proofs.SpecialProofs.
+
+(** the iterators never compare, hash or test nodes: for ANY relabelling g of
+    the nodes - injective or not, so two distinct nodes may "compare equal" -
+    each of the five iterators (the transcriptions of the code), with any
+    filter_, stop and maxlevel, yields on the relabelled tree the relabelled
+    result of the original tree (the user predicates see the nodes through g) *)
+Theorem C17_preorder_natural : forall g f stop ml t,
+  PreOrderIter f stop ml (AT.Proofs.Naturality.map_tree g t)
+  = map g (PreOrderIter (fun n => f (g n)) (fun n => stop (g n)) ml t).
+Proof. exact AT.Proofs.Naturality.pre_iter_natural. Qed.
+Print Assumptions C17_preorder_natural.
+Theorem C17_postorder_natural : forall g f stop ml t,
+  PostOrderIter f stop ml (AT.Proofs.Naturality.map_tree g t)
+  = map g (PostOrderIter (fun n => f (g n)) (fun n => stop (g n)) ml t).
+Proof. exact AT.Proofs.Naturality.post_iter_natural. Qed.
+Print Assumptions C17_postorder_natural.
+Theorem C17_levelorder_natural : forall g f stop ml t,
+  LevelOrderIter f stop ml (AT.Proofs.Naturality.map_tree g t)
+  = match LevelOrderIter (fun n => f (g n)) (fun n => stop (g n)) ml t with
+    | Ok l => Ok (map g l) | Err e => Err e | OutOfFuel => OutOfFuel end.
+Proof. exact AT.Proofs.Naturality.level_iter_natural. Qed.
+Print Assumptions C17_levelorder_natural.
+Theorem C17_levelordergroup_natural : forall g f stop ml t,
+  LevelOrderGroupIter f stop ml (AT.Proofs.Naturality.map_tree g t)
+  = match LevelOrderGroupIter (fun n => f (g n)) (fun n => stop (g n)) ml t with
+    | Ok gs => Ok (map (map g) gs) | Err e => Err e | OutOfFuel => OutOfFuel end.
+Proof. exact AT.Proofs.Naturality.group_iter_natural. Qed.
+Print Assumptions C17_levelordergroup_natural.
+Theorem C17_zigzag_natural : forall g f stop ml t,
+  ZigZagGroupIter f stop ml (AT.Proofs.Naturality.map_tree g t)
+  = match ZigZagGroupIter (fun n => f (g n)) (fun n => stop (g n)) ml t with
+    | Ok gs => Ok (map (map g) gs) | Err e => Err e | OutOfFuel => OutOfFuel end.
+Proof. exact AT.Proofs.Naturality.zigzag_iter_natural. Qed.
+Print Assumptions C17_zigzag_natural.
+(** the identities of the nodes (their positions) do not depend on the labels *)
+Theorem C17_positions_label_free : forall g t p,
+  AT.Model.Nav.children_pos (AT.Proofs.Naturality.map_tree g t) p = AT.Model.Nav.children_pos t p /\
+  AT.Model.Resolver.pre_positions (AT.Proofs.Naturality.map_tree g t) p = AT.Model.Resolver.pre_positions t p.
+Proof. intros g t p. split; [apply AT.Proofs.Naturality.children_pos_label_free|apply AT.Proofs.Naturality.pre_positions_label_free]. Qed.
+Print Assumptions C17_positions_label_free.
 
 (** the repaired util.leftsibling / rightsibling and the repaired '**'
     de-duplication are functions of node identity alone: whatever the user
